@@ -18,7 +18,7 @@ import ast
 import re
 
 from sa.cfg import node_calls, node_exprs, _walk_shallow
-from sa.common import cfg_of
+from sa.common import cfg_of, var_cmp
 from sa.consts import Folder
 from sa.flow import must_pass, reach
 from sa.load import AnalysisError, Program, callee_name, dotted, norm
@@ -93,7 +93,8 @@ def r03_4(prog: Program, rep, rule="R03.4"):
                 if toks[i].text == "<<" and toks[i + 1].kind == "ident":
                     amt = toks[i + 1].text
                     # is `amt` incremented in a loop (amt += k)?
-                    incs = find_seq(toks, [amt, "+=", "_"])
+                    incs = find_seq(toks, [amt, "+=", "_"]) or find_seq(toks, [amt, "=", amt, "+"]) or \
+                        [j for j in find_seq(toks, [amt, "=", amt, "."]) if toks[j + 4].text in ("saturating_add", "wrapping_add", "checked_add")]
                     if not incs:
                         continue
                     n += 1
@@ -201,6 +202,33 @@ def r03_2_rust(prog: Program, rep):
     pos_ok = t.rfind("Ok ( vec !")
     rep.ob("R03.2", RPACK, "apply_delta", "Rust: the success return follows the post-condition tests",
            pos_ok > t.find("if outindex != dest_size") > t.find("if index != delta_len") > 0, "", f.line)
+
+
+def r03_9(prog: Program, rep, m, F):
+    """The copy opcode has FOUR offset bytes.  An encoder that is handed a source position of 2^32 or more must not emit it (it
+    would silently keep the low 32 bits): the offset helper refuses/asserts such a value, or its callers test the position and
+    fall back to a literal insert."""
+    rep.rule("R03.9", "copy offsets of 2^32 and more are never encoded (refused, or replaced by literal inserts)")
+    py = m.funcs.get("_encode_copy_operation")
+    if py is None:
+        raise AnalysisError("pack._encode_copy_operation not found")
+    def guards(node):
+        for x in ast.walk(node):
+            v = var_cmp(x, F) if isinstance(x, ast.Compare) else None
+            if v is not None and isinstance(v[2], int) and v[2] in (0xFFFFFFFF, 1 << 32):
+                return True
+            if isinstance(x, ast.BinOp) and isinstance(x.op, ast.RShift) and F.try_fold(x.right) == 32:
+                return True
+        return False
+    cr = m.funcs.get("_create_delta_py")
+    rep.ob("R03.9", PACK, py.qual, "the Python encoder tests a copy offset against 2^32 (in the helper or where it is called)", guards(py.node) or (cr is not None and guards(cr.node)),
+           "_encode_copy_operation emits at most four offset bytes and nobody checks for more: with a base of 4 GiB or more `copy n from 2^32+1` is written as "
+           "`copy n from 1` and both decoders return the wrong bytes without an error", py.node.lineno)
+    from sa.rust import RustFile
+    rf = RustFile("crates/pack/src/lib.rs", prog.read_text("crates/pack/src/lib.rs"))
+    txt = rf.fns["encode_copy_operation"].text() + (rf.fns["create_delta"].text() if "create_delta" in rf.fns else "")
+    rep.ob("R03.9", rf.rel, "encode_copy_operation", "the Rust encoder tests a copy offset against 2^32", "0xFFFF_FFFF" in txt or "u32 :: MAX" in txt or ">> 32" in txt or "u32 :: try_from" in txt,
+           "same truncation in the Rust twin", rf.fns["encode_copy_operation"].line)
 
 
 def run(prog: Program, rep, tier="quick"):
@@ -374,7 +402,8 @@ def run(prog: Program, rep, tier="quick"):
     ap = [i for i, n in g.nodes.items() for c in node_calls(n) if callee_name(c) == "apply_delta"]
     # however the guard is spelled: following only the edges that mean "payload is empty" (at the length test) and "not a blob"
     # (at the type test), no return is reachable from the successful apply_delta
-    only = {}
+    empty_edge = {}              # length test -> the edge that means "payload is empty"
+    type_test = {}               # type test -> function(type number) -> label of the edge taken
     for i, n in g.nodes.items():
         if n.kind != "test":
             continue
@@ -382,23 +411,42 @@ def run(prog: Program, rep, tier="quick"):
         v_ = var_cmp(n.ast, F)
         if v_ is not None and ("chunks_length(" in norm(v_[0]) or "len(" in norm(v_[0])) and "obj_chunks" in norm(v_[0]):
             if same_int_test(v_[1], v_[2], "==", 0) or same_int_test(v_[1], v_[2], "<=", 0) or same_int_test(v_[1], v_[2], "<", 1):
-                only[i] = "true"
+                empty_edge[i] = "true"
             elif same_int_test(v_[1], v_[2], "!=", 0) or same_int_test(v_[1], v_[2], ">", 0) or same_int_test(v_[1], v_[2], ">=", 1):
-                only[i] = "false"
-        elif v_ is not None and isinstance(v_[0], ast.Name) and "type" in v_[0].id and v_[2] == 3:
-            if v_[1] == "!=":
-                only[i] = "true"
-            elif v_[1] == "==":
-                only[i] = "false"
+                empty_edge[i] = "false"
+        elif v_ is not None and isinstance(v_[0], ast.Name) and "type" in v_[0].id and isinstance(v_[2], int) and v_[1] in ("==", "!="):
+            type_test[i] = (lambda k, op: (lambda t: "true" if ((t == k) == (op == "==")) else "false"))(v_[2], v_[1])
+        elif isinstance(n.ast, ast.Compare) and len(n.ast.ops) == 1 and isinstance(n.ast.ops[0], (ast.In, ast.NotIn)) and isinstance(n.ast.left, ast.Name) \
+                and "type" in n.ast.left.id and isinstance(F.try_fold(n.ast.comparators[0]), (tuple, list, set, frozenset)):
+            vals = set(F.try_fold(n.ast.comparators[0]))
+            type_test[i] = (lambda vs, neg: (lambda t: "true" if ((t in vs) != neg) else "false"))(vals, isinstance(n.ast.ops[0], ast.NotIn))
         elif isinstance(n.ast, ast.Call) and callee_name(n.ast) in ("chunks_length", "len") and "obj_chunks" in t_:
-            only[i] = "false"           # truthiness of the length: the false edge is "empty"
-    guard = [i for i in only if "obj_chunks" in norm(g.nodes[i].ast)]
+            empty_edge[i] = "false"           # truthiness of the length: the false edge is "empty"
+    guard = list(empty_edge)
     rets = [i for i, n in g.nodes.items() if n.kind == "stmt" and isinstance(n.ast, ast.Return)]
     starts = [b for a in ap for b, l in g.succ[a] if l not in ("exc", "raise")]
-    r_ = reach(g, starts, include_srcs=True, edge_ok=lambda a_, b_, l_: not (a_ in only and l_ in ("true", "false") and l_ != only[a_])) if starts else set()
-    bad = [x for x in rets if x in r_]
+    # however the guard is spelled: for each object type, follow only the edges taken when the payload is EMPTY and the type is t;
+    # the type is exempt when a return is reachable from the successful apply_delta
+    exempt: set[int] = set()
+    for t in (1, 2, 3, 4):
+        def ok(a_, b_, l_, t=t):
+            if l_ not in ("true", "false"):
+                return True
+            if a_ in empty_edge:
+                return l_ == empty_edge[a_]
+            if a_ in type_test:
+                return l_ == type_test[a_](t)
+            return True
+        r_ = reach(g, starts, include_srcs=True, edge_ok=ok) if starts else set()
+        if any(x in r_ for x in rets):
+            exempt.add(t)
+    bad = sorted(exempt - {2, 3})
     rep.ob("R03.6", PACK, ro.qual, "result of apply_delta passes the empty-payload test before it is returned", bool(ap) and bool(guard) and not bad,
            "", ro.node.lineno)
+    rep.ob("R03.6", PACK, ro.qual, "the empty-payload guard exempts exactly the types that can be empty: blob (3) and tree (2)", exempt == {2, 3},
+           f"exempt types {sorted(exempt)}: " + ("the EMPTY TREE is an ordinary object and a correct delta against any tree produces it - the pack is rejected although "
+                                                   "git and dulwich's other resolver accept it" if 2 not in exempt else "a commit or tag with an empty payload is let through"),
+           ro.node.lineno)
     # "no base" is None; an EMPTY base (the empty blob, b"" / []) is a base like any other: the decision is an identity test
     bp = [a.arg for a in ro.node.args.args if "base" in a.arg and a.annotation is not None and "None" in norm(a.annotation)]
     truthy = []
@@ -451,8 +499,9 @@ def run(prog: Program, rep, tier="quick"):
         rep.ob("R03.7", PACK, "apply_delta", f"`{norm(next(node_exprs(g.nodes[a]).__iter__()), 50)}` follows a running-length test", bool(tests) and a not in r,
                "output is appended without comparing the accumulated length with the declared size: many small copy "
                "operations build an output out of proportion to the delta before the final check", g.nodes[a].line)
+    r03_9(prog, rep, m, F)
     rep.floor("R03.1", 8)
     rep.floor("R03.2", 9)
     rep.floor("R03.3", 2)
-    rep.floor("R03.4", 8)
+    rep.floor("R03.4", 11)
     rep.floor("R03.5", 8)
